@@ -22,6 +22,7 @@ RULE = ("random histories of 5-60 read-only calls (with arguments, repetition, p
         "compared with the pristine-fork reference; distinct = distinct (previous operation -> operation) pair on the "
         "same object together with the operation's arguments; non-trivial = call preceded by at least one other call on "
         "the same object")
+RULE += ("; added after the mutation rounds: targeted two- and three-call sequences (kappa / delta-max / permutant with bool and non-bool flags, pH 0 then region, Omega / Omega string, user alphabets, phospho queries); live objects replaced by their shuffled children; plotting and write_compfile as perturbers; sequences whose raw ratio lies in (1,1.1); the first cases of every shard are judged again at its end")
 EXHAUSTIVE = {"quick": False, "thorough": False}
 ASSUMPTIONS = [
     "the reference is a fork of a process that has imported localcider and made no call (same interpreter, hash seed)",
